@@ -53,6 +53,26 @@ func c18(c *Ctx) {
 				ok = true
 			}
 		}
+		if !ok {
+			// the target state chosen first and stored once: every value it can take is allowed
+			if leaves := phiLeaves(st.Val); len(leaves) > 1 {
+				ok = true
+				for _, lf := range leaves {
+					in := false
+					for _, a := range allowed[s.Fn] {
+						if a == facts.Term(lf) {
+							in = true
+						}
+					}
+					if !in {
+						ok = false
+					}
+				}
+				if ok {
+					n += len(leaves) - 1
+				}
+			}
+		}
 		R.Check("C18.state-writers", R.Key("C18.state-writers", shortFn(s.Fn), "store:state="+v), c.sitePos(p, s), "node.state = "+v+" in "+shortFn(s.Fn)+" is one of the protocol's transitions", ok, "unlisted writer or value")
 		// an exit counts as a cancellation (no DEAD state, no cancellation of the group, no
 		// back-off) only when the node's context really was cancelled
@@ -627,6 +647,44 @@ func c18(c *Ctx) {
 			okAll = true
 		}
 	})
+	// the same walk with the nodes themselves on the work list: every element's ctxC is called
+	var cancelCall *ssa.Call
+	eachInstr(kill, func(i ssa.Instruction) {
+		cl, ok := i.(*ssa.Call)
+		if !ok || cl.Call.IsInvoke() || cl.Call.StaticCallee() != nil {
+			return
+		}
+		if ld, isLd := cl.Call.Value.(*ssa.UnOp); isLd && ld.Op == token.MUL {
+			if fa, isFA := ld.X.(*ssa.FieldAddr); isFA && fieldOfAddr(fa).Name() == "ctxC" {
+				cancelCall = cl
+			}
+		}
+	})
+	formB := false
+	if cancelCall != nil {
+		okAll = true
+		for _, l := range facts.LoopsOf(kill) {
+			if !l.Body()[cancelCall.Block()] {
+				continue
+			}
+			cuts := facts.Cuts{}
+			for _, lt := range l.Latches {
+				for k, sc := range lt.Succs {
+					if sc == l.Header {
+						cuts[facts.Edge{B: lt.Index, K: k}] = true
+					}
+				}
+			}
+			for _, lt := range l.Latches {
+				if !facts.BeforeFrom(l.Header, lt.Instrs[len(lt.Instrs)-1], cuts, func(i ssa.Instruction) bool { return i == ssa.Instruction(cancelCall) }) {
+					okAll = false
+				}
+			}
+			formB = true
+		}
+		okAll = okAll && formB
+	}
+	_ = formB
 	R.Check("C18.kill", "C18.kill/processKill", c.rel(p.Pos(kill.Pos())), "processKill calls every collected cancel function", okAll, "cancel loop not found")
 	// … and collects the cancel function of EVERY node it dequeues and enqueues all its children:
 	// no iteration of the walk may skip that (a DONE node's context is still live; skipping it, or
@@ -641,6 +699,53 @@ func c18(c *Ctx) {
 		}
 	})
 	okEvery, whyEvery := false, "no `cancels = append(cancels, cur.ctxC)` found"
+	if collect == nil && formB {
+		// work list of nodes: every append inside a loop of the walk happens on every iteration of
+		// its innermost loop, and no branch of the walk looks at a node's state
+		okEvery, whyEvery = true, ""
+		napp := 0
+		eachInstr(kill, func(i ssa.Instruction) {
+			if iff, ok := i.(*ssa.If); ok {
+				for _, pol := range []bool{true, false} {
+					if strings.Contains(facts.Atom(iff.Cond, pol), ".state") {
+						okEvery, whyEvery = false, "the walk branches on a node's state at "+c.rel(p.Pos(instrPos(iff)))
+					}
+				}
+			}
+			cl, ok := i.(*ssa.Call)
+			if !ok || facts.CalleeName(&cl.Call) != "append" {
+				return
+			}
+			var inner *facts.Loop
+			for _, l := range facts.LoopsOf(kill) {
+				l := l
+				if l.Body()[cl.Block()] && (inner == nil || inner.Body()[l.Header]) {
+					inner = &l
+				}
+			}
+			if inner == nil {
+				return
+			}
+			napp++
+			cuts := facts.Cuts{}
+			for _, lt := range inner.Latches {
+				for k, sc := range lt.Succs {
+					if sc == inner.Header {
+						cuts[facts.Edge{B: lt.Index, K: k}] = true
+					}
+				}
+			}
+			for _, lt := range inner.Latches {
+				last := lt.Instrs[len(lt.Instrs)-1]
+				if !facts.BeforeFrom(inner.Header, last, cuts, func(j ssa.Instruction) bool { return j == ssa.Instruction(cl) }) {
+					okEvery, whyEvery = false, "an iteration of the walk can skip adding a child to the work list at "+c.rel(p.Pos(cl.Pos()))
+				}
+			}
+		})
+		if napp == 0 {
+			okEvery, whyEvery = false, "no child is ever added to the work list"
+		}
+	}
 	if collect != nil {
 		for _, l := range facts.LoopsOf(kill) {
 			if !l.Body()[collect.Block()] {
